@@ -63,10 +63,10 @@ def r15_1_depth_indexing(repo: Repo, rep: Report):
 
 REVIEWED_CONTINUES = [
     ("stuck target call (reported by error())", {"subcall.is_stuck()"}),
-    ("ordinary revert (not a panic, no failure flag)", {"subcall.output.error", "not (panic_found)", "not (is_global_fail_set(subcall))"}),
-    ("probe already reported", {"subcall.output.error", "fun_info in ctx.probes_reported"}),
-    ("reverted state is not explored further (after probe submission)", {"subcall.output.error"}),
-    ("state already visited", {"post_id in visited"}),
+    ("ordinary revert (not a panic, no failure flag)", {"not (subcall.is_stuck())", "subcall.output.error", "not (panic_found)", "not (is_global_fail_set(subcall))"}),
+    ("probe already reported", {"not (subcall.is_stuck())", "subcall.output.error", "fun_info in ctx.probes_reported"}),
+    ("reverted state is not explored further (after probe submission)", {"not (subcall.is_stuck())", "subcall.output.error"}),
+    ("state already visited", {"not (subcall.is_stuck())", "post_id in visited"}),
 ]
 
 
@@ -85,7 +85,7 @@ def r15_2_loop_completeness(repo: Repo, rep: Report):
         for why, need in REVIEWED_CONTINUES:
             if need <= gs:
                 matched = why
-                if len(need) > 1 or need == {"subcall.is_stuck()"} or need == {"post_id in visited"}:
+                if len(need) > 2 or need == {"subcall.is_stuck()"} or "post_id in visited" in need:
                     break
         # the bare `subcall.output.error` continue must be the last statement of that block
         if matched == REVIEWED_CONTINUES[3][0]:
@@ -225,6 +225,8 @@ def r15_6_filters_structure(repo: Repo, rep: Report):
     ]
     for x in need:
         rep.check("R15.6", x in t, m, rc, x, "target-contract resolution lost a clause")
+    pos = [t.find(x) for x in need]
+    rep.check("R15.6", all(p >= 0 for p in pos) and pos == sorted(pos), m, rc, "order: targets-or-all, then minus excluded contracts, then plus contracts named by targetSelector", "Foundry keeps a contract that is excluded but named by a targetSelector: the exclusion must be applied before the targetSelector contracts are added")
     rs = [r for r in body_walk(rc) if isinstance(r, ast.Raise)]
     rep.check("R15.6", len(rs) == 1 and "not (resolved_target_contracts)" in guard_set(m, rs[0]), m, rs[0] if rs else rc, "no target contracts -> HalmosException", "an empty target set must be an error, not a vacuous PASS")
     _, rsel = repo.fn("__main__.resolve_target_selectors")
